@@ -18,6 +18,7 @@ package parser
 //@   ensures result0 == lr.SHIFT ==> 0 <= result1 && result1 <= refMaxState()
 //@   ensures result0 == lr.REDUCE ==> 0 <= result1 && result1 < prodCount() && prodLen(result1) <= distS(s)
 //@   ensures result0 == lr.SHIFT ==> distS(result1) <= distS(s) + 1
+//@   ensures result0 == lr.ACCEPT ==> distS(s) >= 1
 
 //@ func GOTO(s int, A grammar.NonTerminal) int
 //@   split s 0 56
@@ -52,18 +53,28 @@ package parser
 //@   sourceOK(p) && p.L == L && p.L.toks == toks && p.L.endErr == e
 
 //@ func (p *Parser) Parse(tokenF parser.TokenFunc, prodF ProductionFunc) error
-//@   requires sourceOK(p) && tablesOK()
+//@   requires sourceOK(p) && tablesOK() && (tokenF != nil && prodF != nil ==> cbinv(0))
 //@   requires forall j int :: {p.L.toks[j]} 0 <= j && j < len(p.L.toks) ==> p.L.toks[j].Terminal != grammar.Endmarker
 //@   modifies heap
+//
+// Callbacks own a state of their own (the abstract invariant cbinv(d), d = number of grammar symbols on
+// the parse stack) and are assumed to write nothing the driver reads ("frameless"; checked for every
+// function literal passed here, see refine[...] obligations of the callers).
+//@   callback tokenF frameless
+//@   callback tokenF ghost d = len(stack.seq) - 2
 //@   callback tokenF requires refActType(athead(stack.seq)[len(athead(stack.seq))-1], athead(token).Terminal) == lr.SHIFT
 //@   callback tokenF requires len(stack.seq) == len(athead(stack.seq)) + 1 && p.L.k == athead(p.L.k)
 //@   callback tokenF requires arg0 != nil && arg0.Terminal == athead(token).Terminal && arg0.Lexeme == athead(token).Lexeme && arg0.Pos == athead(token).Pos
-//@   callback tokenF ensures tablesOK() && sameSource(p, old(p.L), old(p.L.toks), old(p.L.endErr)) && p.L.k == old(p.L.k)
+//@   callback tokenF provides arg0 != nil && d >= 0 && (prodF != nil ==> cbinv(d))
+//@   callback tokenF ensures result == nil && prodF != nil ==> cbinv(d + 1)
+//@   callback prodF frameless
+//@   callback prodF ghost d = len(athead(stack.seq)) - 1
 //@   callback prodF requires refActType(athead(stack.seq)[len(athead(stack.seq))-1], athead(token).Terminal) == lr.REDUCE
 //@   callback prodF requires arg0 == refActParam(athead(stack.seq)[len(athead(stack.seq))-1], athead(token).Terminal)
 //@   callback prodF requires len(stack.seq) == len(athead(stack.seq)) - prodLen(arg0) + 1 && p.L.k == athead(p.L.k)
-//@   callback prodF ensures tablesOK() && sameSource(p, old(p.L), old(p.L.toks), old(p.L.endErr)) && p.L.k == old(p.L.k)
-//@   callback prodF ensures token == old(token)
+//@   callback prodF provides tablesOK() && 0 <= arg0 && arg0 < prodCount() && prodLen(arg0) <= d && (tokenF != nil ==> cbinv(d))
+//@   callback prodF ensures result == nil && tokenF != nil ==> cbinv(d - prodLen(arg0) + 1)
+//@   loop[0] invariant tokenF != nil && prodF != nil ==> cbinv(len(stack.seq) - 1)
 //@   loop[0] invariant tablesOK() && sameSource(p, old(p.L), old(p.L.toks), old(p.L.endErr))
 //@   loop[0] invariant len(stack.seq) >= 1 && stack.seq[0] == 0
 //@   loop[0] invariant lasterr(tokenF) == nil && lasterr(prodF) == nil
@@ -86,9 +97,56 @@ package parser
 //@   loop[1] invariant forall j int :: {stack.seq[j]} 0 <= j && j < len(stack.seq) ==> stack.seq[j] == before(stack.seq)[j]
 //@   ensures lasterr(tokenF) != nil ==> result != nil && typeis(result, "*parser.ParseError") && unbox(result, "*parser.ParseError").Cause == lasterr(tokenF)
 //@   ensures lasterr(prodF) != nil ==> result != nil && typeis(result, "*parser.ParseError") && unbox(result, "*parser.ParseError").Cause == lasterr(prodF)
-//@   ensures result == nil ==> refActType(stack.seq[len(stack.seq)-1], token.Terminal) == lr.ACCEPT
-//@   ensures errors.Is(p.L.endErr, io.EOF) && lasterr(tokenF) == nil && lasterr(prodF) == nil && result != nil
+//@   internal ensures result == nil ==> refActType(stack.seq[len(stack.seq)-1], token.Terminal) == lr.ACCEPT
+//@   ensures result == nil && tokenF != nil && prodF != nil ==> exists d int :: d >= 1 && cbinv(d)
+//@   internal ensures errors.Is(p.L.endErr, io.EOF) && lasterr(tokenF) == nil && lasterr(prodF) == nil && result != nil
 //@     ==> refActType(stack.seq[len(stack.seq)-1], token.Terminal) == lr.ERROR
 //@         && typeis(result, "*parser.ParseError") && unbox(result, "*parser.ParseError").Pos == token.Pos
 //@         && unbox(result, "*parser.ParseError").Cause != nil
 //@         && (token.Terminal != grammar.Endmarker ==> 1 <= p.L.k && p.L.k <= len(p.L.toks) && token == p.L.toks[p.L.k - 1])
+
+// ---- ParseAndEvaluate: the value stack mirrors the parse stack ----
+
+//@ import "github.com/moorara/algo/parser/lr"
+
+//@ func (p *Parser) ParseAndEvaluate(eval EvaluateFunc) (*lr.Value, error)
+//@   requires sourceOK(p) && tablesOK() && eval != nil
+//@   requires forall j int :: {p.L.toks[j]} 0 <= j && j < len(p.L.toks) ==> p.L.toks[j].Terminal != grammar.Endmarker
+//@   modifies heap
+//@   callback eval frameless
+//@   callback eval provides 0 <= arg0 && arg0 < prodCount() && len(arg1) == prodLen(arg0)
+//@   cbinv d = nodes != nil && len(nodes.seq) == d && (forall j int :: {nodes.seq[j]} 0 <= j && j < d ==> nodes.seq[j] != nil)
+//@   ensures result1 == nil ==> result0 != nil
+//@   ensures result1 != nil ==> result0 == nil
+
+//@ func (p *Parser) ParseAndEvaluate$1(token *lexer.Token) error
+//@   captures nodes != nil
+//@   requires token != nil
+//@   modifies nodes.seq
+//@   ensures result == nil
+//@   ensures len(nodes.seq) == len(old(nodes.seq)) + 1
+//@   ensures forall j int :: {nodes.seq[j]} 0 <= j && j < len(old(nodes.seq)) ==> nodes.seq[j] == old(nodes.seq)[j]
+//@   ensures nodes.seq[len(old(nodes.seq))] != nil && fresh(nodes.seq[len(old(nodes.seq))])
+//@   ensures nodes.seq[len(old(nodes.seq))].Val == token.Lexeme
+//@   ensures nodes.seq[len(old(nodes.seq))].Pos != nil && deref(nodes.seq[len(old(nodes.seq))].Pos) == token.Pos
+
+//@ func (p *Parser) ParseAndEvaluate$2(i int) error
+//@   captures nodes != nil && eval != nil
+//@   requires tablesOK() && 0 <= i && i < prodCount() && prodLen(i) <= len(nodes.seq)
+//@   requires forall j int :: {nodes.seq[j]} 0 <= j && j < len(nodes.seq) ==> nodes.seq[j] != nil
+//@   modifies nodes.seq
+//@   callback eval requires arg0 == old(i) && len(arg1) == prodLen(old(i))
+//@   callback eval requires forall j int :: {arg1[j]} 0 <= j && j < prodLen(old(i)) ==> arg1[j] == old(nodes.seq)[len(old(nodes.seq)) - prodLen(old(i)) + j]
+//@   callback eval requires len(nodes.seq) == len(old(nodes.seq)) - prodLen(old(i))
+//@   loop[0] invariant 0 - 1 <= i && i < l && l == prodLen(old(i)) && len(rhs) == l
+//@   loop[0] invariant len(nodes.seq) == len(old(nodes.seq)) - (l - 1 - i)
+//@   loop[0] invariant forall j int :: {nodes.seq[j]} 0 <= j && j < len(nodes.seq) ==> nodes.seq[j] == old(nodes.seq)[j]
+//@   loop[0] invariant forall j int :: {rhs[j]} i < j && j < l ==> rhs[j] == old(nodes.seq)[len(old(nodes.seq)) - l + j]
+//@   loop[0] decreases i + 1
+//@   ensures lasterr(eval) != nil ==> result == lasterr(eval)
+//@   ensures result == nil ==> len(nodes.seq) == len(old(nodes.seq)) - prodLen(i) + 1
+//@   ensures result == nil ==> forall j int :: {nodes.seq[j]} 0 <= j && j < len(nodes.seq) - 1 ==> nodes.seq[j] == old(nodes.seq)[j]
+//@   ensures result == nil ==> nodes.seq[len(nodes.seq) - 1] != nil && fresh(nodes.seq[len(nodes.seq) - 1])
+//@   ensures result == nil ==> nodes.seq[len(nodes.seq) - 1].Val == lastres(eval)
+//@   ensures result == nil && prodLen(i) > 0 ==> nodes.seq[len(nodes.seq) - 1].Pos == old(nodes.seq)[len(old(nodes.seq)) - prodLen(i)].Pos
+//@   ensures result == nil && prodLen(i) == 0 ==> nodes.seq[len(nodes.seq) - 1].Pos == nil
